@@ -34,7 +34,10 @@ RULE = ("every table (tp,fp,fn,tn) of naturals with total <= 6 (quick) / <= 12 (
         "BasicContingencyManager built from a counts dict of DataArrays, all 34 public metric methods; plus random large tables "
         "(cells up to 2000, zero cells forced with p=0.3) and 1-3 dimensional count arrays whose four members are stored with "
         "different dimension and coordinate order; a case is one (table, method) pair, distinct by its content, non-trivial always "
-        "(zero-cell tables are the point); standalone POD/POFD on random binary arrays with NaN, weights and every dims spelling")
+        "(zero-cell tables are the point); standalone POD/POFD on random binary arrays with NaN, weights and every dims spelling; single tables "
+        "held as 0-d count arrays with float64 and with int64 counts (all tables with total <= 2 / <= 3, every single-cell table, the empty "
+        "table, random ones); tables produced by the public event route (BinaryContingencyManager / ThresholdEventOperator, then transform) on "
+        "constant, equal, all-missing and random 0/1 series, fully reduced (0-d) or with one dimension kept")
 ASSUMPTIONS = ["natural logarithm (SEDI) is evaluated by the host's math.log on the model's exact rational arguments",
                "binary64 rounding is not modelled: implementation floats are compared with the exact rational value at 1e-9 relative"]
 TRUSTED = ["host math.log for SEDI"]
